@@ -120,6 +120,8 @@ class FnTranslator(ExprMixin, CallMixin, StmtMixin, EffectMixin):
         self.assume_false = set()
         self.erased_locals = set()      # local variables holding display texts (specs: erased_locals)
         self.loop_falls = []            # continuations "end of this iteration" of the enclosing for loops
+        self.effect_ctors = set()       # classes whose constructor call creates an effect object here (specs)
+        self.local_defs = {}            # generator functions defined inside the function (inlined where they are called)
         self.current_method = None
         self.recursive = False
         self.returns = []
@@ -214,9 +216,17 @@ def translate_function(reg, fn, node, cls=None, declared_ret=None):
             tr.erased_attrs = set(getattr(fn, "erased_attrs", ()))
         tr.assume_false = set(getattr(fn, "assume_false", ()))
         tr.erased_locals = set(getattr(fn, "erased_locals", ()))
+        tr.effect_ctors = set(getattr(fn, "effect_ctors", ()))
         for p, t in fn.params:
             env[p] = (("()" if isinstance(t, (TErased, TEffectClass)) else p), t)
-        is_gen = any(isinstance(n, (ast.Yield, ast.YieldFrom)) for n in ast.walk(node))
+        def own_nodes(root):
+            """the nodes of the function, without the bodies of the functions defined inside it"""
+            for ch in ast.iter_child_nodes(root):
+                if isinstance(ch, (ast.FunctionDef, ast.Lambda)):
+                    continue
+                yield ch
+                yield from own_nodes(ch)
+        is_gen = any(isinstance(n, (ast.Yield, ast.YieldFrom)) for n in own_nodes(node))
         if is_gen:
             tv = TVar()
             env["«yield»"] = ("out_", TList(tv))
@@ -391,6 +401,7 @@ def run_specs(specs):
                     fn.erased_attrs = item.get("erased_attrs", [])
                     reg.effect_procs.setdefault(ename, {}).setdefault(meth, []).append(fn)
                 fn.assume_false = item.get("assume_false", [])
+                fn.effect_ctors = item.get("effect_ctors", [])
                 if item.get("self_builder"):
                     b = reg.builders[cname]
                     fn.self_ty = TBuilder(cname, [t for t in b["ctor"] if not isinstance(t, TErased)], b["command"], b["args"])
@@ -433,6 +444,7 @@ def run_specs(specs):
             fn.prop = item.get("property")
             fn.assume_false = item.get("assume_false", [])
             fn.erased_locals = item.get("erased_locals", [])
+            fn.effect_ctors = item.get("effect_ctors", [])
             node = None
             if tree is not None:
                 for n in tree.body:
